@@ -487,6 +487,83 @@ def rule_TB13(rep, prog):
                             sample={"old_clock": oldc, "new_clock": newc})
 
 
+def rule_TB14(rep, prog):
+    rid = rep.rule("C11-TB14", "event-loop wiring of the kernel timers: the epoll ident a clock's timerfd is registered under (_dispatch_epoll_timeout[clock].det_ident) "
+                   "is the switch case that merges THAT clock's timer event - otherwise the fired clock's 'armed' bookkeeping is never cleared, its timerfd is never "
+                   "re-enabled and every later deadline on that clock is lost", floor=3)
+    tbl = prog.global_("_dispatch_epoll_timeout")
+    if not tbl or not tbl.get("init"):
+        rep.unknown(rid, "anchor vanished: _dispatch_epoll_timeout table not found")
+        return
+    n = 0
+    for fn in prog.all_functions():
+        for c in calls_named(fn, "_dispatch_event_merge_timer"):
+            if c.ops[0][0] != "c":
+                continue
+            clock = c.ops[0][1]
+            # the switch case that leads (only) to this call's block
+            idents = set()
+            for sw in fn.all_insts():
+                if sw.op == "switch":
+                    for cv, tgt in sw.d.get("cases", []):
+                        if tgt == c.block.id:
+                            idents.add(cv)
+            if not idents:
+                continue
+            n += 1
+            rep.saw(fn)
+            want = tbl["init"][clock][1] if clock < len(tbl["init"]) else None
+            rep.require(rid, idents == {want}, c.loc, fn.name, "epoll-ident-clock-mismatch:%d" % clock,
+                        "%s merges the timer event of clock %d for epoll ident(s) %s, but clock %d's timerfd is registered under ident %s: the clock whose timerfd fired is "
+                        "not the one whose heap is re-evaluated / re-armed" % (fn.name, clock, sorted(idents), clock, want), sample={"clock": clock, "ident": want})
+    if n < 3:
+        rep.unknown(rid, "fewer than 3 timer-event cases found in the event loop (%d)" % n)
+
+
+def rule_SB15(rep, prog):
+    rid = rep.rule("C11-SB15", "sibling predicates agree on 'this timer still has a fire to wait for': the target-queue side (_dispatch_source_refs_needs_rearm) and "
+                   "the manager side (_dispatch_timer_unote_needs_rearm) both test dt_timer.target < INT64_MAX - not the deadline, which saturates to INT64_MAX for a "
+                   "large leeway although the target is finite (a one-shot timer with unbounded leeway would never be armed and never fire); an interval source's "
+                   "first fire is the NEXT interval boundary after now", floor=3)
+    I64MAX = (1 << 63) - 1
+    n = 0
+    for name in ("_dispatch_source_refs_needs_rearm", "_dispatch_timer_unote_needs_rearm"):
+        fn = prog.fn(name)
+        rep.saw(fn)
+        ts = [t for t in fn.all_insts() if t.op == "icmp" and any(o[0] == "c" and o[1] == I64MAX for o in t.ops)]
+        if not ts:
+            rep.unknown(rid, "anchor vanished: %s compares nothing with INT64_MAX" % name)
+            continue
+        for t in ts:
+            n += 1
+            l = [fn.inst(o) for o in t.ops if o[0] == "i"]
+            l = l[0] if l else None
+            while l is not None and l.op in ("zext", "trunc", "sext", "bitcast"):
+                l = fn.inst(l.ops[0])
+            off = l.d["ptr"]["off"] if l is not None and l.op == "load" and l.d.get("ptr") else None
+            fl = prog.fields(l) if l is not None and l.op == "load" else set()
+            ok = "target" in fl and t.d["pred"] in ("ult", "slt", "ne")
+            rep.require(rid, ok, t.loc, name, "needs-rearm-field:%s" % name,
+                        "%s decides whether the timer still has to be armed by comparing %s (offset %s) with INT64_MAX: it must be the timer's target (the first member of "
+                        "dt_timer) on both sides" % (name, sorted(fl), off), sample={"fn": name, "field": sorted(fl)})
+    fn = prog.fn("_dispatch_interval_config_create")
+    rep.saw(fn)
+    up = calls_named(fn, "_dispatch_uptime")
+    rems = [r for r in fn.all_insts() if r.op == "urem"]
+    okb = False
+    for r in rems:
+        dv = fn.inst(r.ops[0])
+        if dv is not None and dv.op == "add" and any(fn.inst(o) in up for o in dv.ops) and any(tuple(o[:2]) == tuple(r.ops[1][:2]) for o in dv.ops):
+            okb = True
+    n += 1
+    rep.require(rid, okb and bool(up), rems[0].loc if rems else fn.file, fn.name, "interval-first-fire-not-next-boundary",
+                "_dispatch_interval_config_create does not align the first fire to (now + interval) rounded down to a multiple of the interval: rounding `now` itself "
+                "down yields a boundary already past - the handler runs at once, before its start time, and the accumulated fire count stays one too high",
+                sample={"urem": len(rems)})
+    if n < 3:
+        rep.unknown(rid, "fewer than 3 obligations found (%d)" % n)
+
+
 def rule_TB10(rep, prog):
     rid = rep.rule("C11-TB10", "the kernel timer's bookkeeping mirrors the epoll operation just performed: after epoll_ctl(op) on a timerfd both det_registered and "
                    "det_armed are set, unconditionally, to (op != EPOLL_CTL_DEL); the next arm then chooses ADD / MOD correctly", floor=2)
@@ -568,6 +645,10 @@ def run(rep, tier="quick", srcdir=None, only=None):
         rule_OD12(rep, prog)
     if want("C11-TB13"):
         rule_TB13(rep, prog)
+    if want("C11-TB14"):
+        rule_TB14(rep, prog)
+    if want("C11-SB15"):
+        rule_SB15(rep, prog)
 
 
 MANIFEST = {
